@@ -38,6 +38,13 @@ type Case struct {
 	// Mode "rebuild": instead of main(), parse the grammar once and build the
 	// parser twice from the same grammar value (library use of the builder).
 	Mode string `json:"mode,omitempty"`
+	// RebuildVariant selects what the library-style use does before the two
+	// builds that are compared: 0 nothing; 1 a build into a writer that fails
+	// after RebuildFailAt bytes (a fault in this process's history); 2 (with
+	// -optimize-grammar) the grammar value is built once *before* it is
+	// optimised, and compared with a freshly parsed, optimised, built one.
+	RebuildVariant int `json:"rebuild_variant,omitempty"`
+	RebuildFailAt  int `json:"rebuild_fail_at,omitempty"`
 	// StepCap bounds the instrumentation steps (function entries and loop
 	// iterations of pigeon's own packages) one run may take; 0 = no bound.
 	StepCap int64 `json:"step_cap,omitempty"`
@@ -290,4 +297,17 @@ func runRebuild(rebuild RebuildFunc, c *Case) (runs []Run) {
 		return r
 	}
 	return []Run{mk(o1, e1), mk(o2, e2)}
+}
+
+// FailingWriter accepts n bytes and then fails every write.
+type FailingWriter struct{ N int }
+
+func (w *FailingWriter) Write(p []byte) (int, error) {
+	if len(p) <= w.N {
+		w.N -= len(p)
+		return len(p), nil
+	}
+	n := w.N
+	w.N = 0
+	return n, fmt.Errorf("simulated: no space left on device")
 }
